@@ -127,8 +127,6 @@ func c05Main(r *run.Runner) {
 	r.Rule = "every source of the enumerations (lexeme sequences up to L tokens over three alphabets, every corruption of the grammar corpus, the corpus itself in several layouts, expression trees up to N nodes in where/extend position, all operator sequences up to depth d) and the wide families (k operands / columns / operators / joins, alone and as a join right-hand side) is compiled with three option values; " +
 		"every successful output is lexed under standard and ClickHouse rules and parsed as `[WITH ...] select ;` by the independent reader, and its table references, CTE names and CTE uses are checked; non-trivial = Compile succeeded; distinct by construction"
 	r.Assume = []string{"sqlx reads a superset of the SQL shapes pql emits", "a table is 'named in the source' when its name is the value of an identifier token of the source"}
-	b1 := tokenSweeps(r, 4, 6, c05One)
-	b2 := corruptionSweep(r, c05One)
 	corpus := gen.Programs()
 	r.Sweep("corpus", int64(len(corpus)), func(w *run.Worker, item int64) {
 		pr := gen.Print(corpus[item])
@@ -205,6 +203,9 @@ func c05Main(r *run.Runner) {
 	if c05Pipelines != nil {
 		b3 = c05Pipelines(r)
 	}
+	// the large enumerations last: the families above must not be starved by the tier deadline
+	b1 := tokenSweeps(r, 4, 6, c05One)
+	b2 := corruptionSweep(r, c05One)
 	r.Extra["bounds"] = map[string]any{"token_sequences": b1, "corruptions": b2, "corpus_programs": len(corpus), "expr_internal_nodes": N, "pipelines": b3, "join_programs": len(joins), "wide_programs": len(wides)}
 	r.Sample("T | take - 1 | where 'x' | as by")
 	r.Sample("T | join ( R | join ( C ) on k ) on k | count")
